@@ -5,7 +5,7 @@ LEVEL = "other"
 TAGS = ("C07",)
 CONTRACT_MODULES = ALL_CONTRACTS
 FUNCTIONS = [S + "exitExcludedRegion", S + "disableExclusion", S + "processLinearMoves", "RetractionState.RetractionState._addCommands",
-             H + "_handle_G10", H + "_handle_G11", H + "handleAtCommand", "GcodeParser.GcodeParser.buildCommand"]
+             H + "_handle_G10", H + "_handle_G11", H + "handleAtCommand", "GcodeParser.GcodeParser.buildCommand", "GcodeParser.formatNumber"]
 ASSUMPTIONS = ["A1", "A2", "A4"]
 BOUNDED = [script("format_number.py")]
 EXTRA_ASSUMPTIONS = ["'yields exactly the intended values': the interpolated values are the ones C03/C04 prove correct; this property adds that their rendering is readable",
@@ -27,7 +27,7 @@ BREAKERS = [{'desc': 'exit move repeats the X letter',
   'old': '            "G0 F{f} X{x} Y{y}".format('},
  {'bounded': True,
   'desc': 'formatNumber leaves exponent notation',
-  'functions': [],
+  'functions': ['GcodeParser.formatNumber'],
   'module': 'GcodeParser',
   'new': '        text = text\n',
   'old': '        text = format(Decimal(text), "f")\n'},
